@@ -10,7 +10,7 @@ TARGETS = ['pytezos.context.impl.ExecutionContext.get_counter/set_counter/reset'
 STUBS = ['shell (RPC) -> harness/opnode.Node: symbolic account counter, mempool that evolves with the injections, run_operation applies everything, injection succeeds or raises RpcError as the history says',
          'key -> fixed tz1 identity, sign() returns a constant signature (signing is C23/C07)', 'forge_operation_group inside group.py -> constant bytes (forging is C06); the counters are observed on '
          'the contents of the group handed to inject()', 'logger.debug -> no-op']
-BOUNDS = {'quick': 'histories of up to 4 steps over the alphabet {prepare a new group of 1..2 transactions by fill() / by autofill() / by send() (autofill+sign+inject in one call), autofill() the prepared group again, '
+BOUNDS = {'quick': 'histories of up to 4 steps over the alphabet {prepare a new group of 1..2 transactions by fill() / by autofill() / by send() (autofill+sign+inject in one call), autofill() the prepared group again, extend the prepared group by one content and fill() it again, re-use of the same unfilled group object for several preparations, '
                    'sign+inject the prepared group (success / RpcError), the node bakes its mempool, another client of the account injects an operation, a foreign operation enters the mempool}; '
                    'the step sequence is chosen by the solver, the account counter is a symbolic integer; initial mempool: 0..2 own contents + optional foreign operation',
           'thorough': 'up to 6 steps, groups of 1..3 contents (1..2 at 5 steps, 1 at 6 steps)'}
@@ -59,11 +59,11 @@ def _env(symbolic):
 
 
 SIG = 'sigUHx32f9wesZ1n2BWpixXz4AQaZggEtchaQNHYGRCoWNAXx45WGW2ua3apUUUAGMLPwAU41QoaFCzVSL61VaessLg4YbbP'
-STEPS = ('fill-new', 'autofill-new', 'send-new', 'autofill-again', 'inject-ok', 'inject-fails', 'bake', 'own-op-from-elsewhere', 'foreign-op')
+STEPS = ('fill-new', 'autofill-new', 'send-new', 'autofill-again', 'inject-ok', 'inject-fails', 'bake', 'own-op-from-elsewhere', 'foreign-op', 'extend-and-refill')
 FOREIGN = 'tz1VSUr8wwNhLAzempoch5d6hLRiTh8Cjcjb'
 
 
-def run_history(Pp, choose, counter, check, fail, symbolic, stale=lambda step: None):
+def run_history(Pp, choose, counter, check, fail, symbolic, stale=lambda step: None, stale_refill=lambda step: None):
     """Drive the real client through a history; returns the trace."""
     from pytezos.operation.group import OperationGroup
     from pytezos.rpc.errors import RpcError
@@ -117,14 +117,20 @@ def run_history(Pp, choose, counter, check, fail, symbolic, stale=lambda step: N
 
     prepared = None
     attempted = False
+    templates = {}
     nmax = Pp.get('nmax', 2)
     for step in range(Pp['steps']):
-        opts = [0, 1, 2, 6, 8] + ([3, 4, 5] if prepared is not None else [7])
+        opts = [0, 1, 2, 6, 8] + ([3, 4, 5, 9] if prepared is not None else [7])
         a = opts[choose(f'step{step}', 0, len(opts) - 1)]
         name = STEPS[a]
         if name in ('fill-new', 'autofill-new', 'send-new'):
             n = choose(f'n{step}', 1, nmax)
-            g = new_group(n)
+            # the unfilled group object (e.g. `op = client.transaction(..)`) may be used for several preparations
+            if n in templates and Pp.get('reuse', True) and choose(f'reuse{step}', 0, 1):
+                g = templates[n]
+            else:
+                g = new_group(n)
+                templates[n] = g
             if prepared is not None and not attempted:
                 # a new group is prepared while an earlier preparation was never handed to inject(): its counters are still cached
                 stale(step)
@@ -145,6 +151,12 @@ def run_history(Pp, choose, counter, check, fail, symbolic, stale=lambda step: N
             trace.append(f'{name}({n})')
         elif name == 'autofill-again':
             prepared = prepared.autofill()
+            trace.append(name)
+        elif name == 'extend-and-refill':
+            if attempted:
+                stale_refill(step)
+            prepared = prepared.transaction(FOREIGN, amount=9).fill()
+            attempted = False          # a new preparation that has not been handed to inject() yet
             trace.append(name)
         elif name in ('inject-ok', 'inject-fails'):
             signed = prepared.sign()
@@ -186,8 +198,14 @@ def sym_history(Pp, ex):
             ex.assume(v == 1)
             bvx.apply_regions(ex, {}, Pp)
 
+    def stale_refill(step):
+        if 'refilled_after_failed_injection' not in ex.symbols:
+            v = ex.bv('refilled_after_failed_injection')
+            ex.assume(v == 1)
+            bvx.apply_regions(ex, {}, Pp)
+
     with _env(True):
-        run_history(Pp, lambda n, lo, hi: mbv._choose(ex, n, lo, hi), counter, lambda c, label: ex.check(c, label), lambda m: ex.fail_here(m), True, stale)
+        run_history(Pp, lambda n, lo, hi: mbv._choose(ex, n, lo, hi), counter, lambda c, label: ex.check(c, label), lambda m: ex.fail_here(m), True, stale, stale_refill)
         ex.check(True)
 
 
@@ -218,7 +236,7 @@ def conc_history(Pp, w):
     steps = []
     prepared = False
     for i in range(Pp['steps']):
-        opts = [0, 1, 2, 6, 8] + ([3, 4, 5] if prepared else [7])
+        opts = [0, 1, 2, 6, 8] + ([3, 4, 5, 9] if prepared else [7])
         a = opts[min(int(w.get(f'step{i}', 0)), len(opts) - 1)]
         steps.append(STEPS[a])
         if a in (0, 1):
@@ -234,6 +252,6 @@ def obligations(tier):
     plans = [(1, 2, True), (2, 2, True), (3, 2, True), (4, 1, False)] if q else [(1, 3, True), (2, 3, True), (3, 3, True), (4, 3, True), (5, 2, True), (6, 1, False)]
     for steps, nmax, foreign in plans:
         obs.append(Ob(f'history/steps={steps}', 'bvx', sym_history, conc_history, {'steps': steps, 'nmax': nmax, 'foreign': foreign}, timeout=900 if q else 20000, targets=TARGETS, stubs=STUBS,
-                      bounds=f'every history of exactly {steps} steps over the 9-step alphabet; groups of 1..{nmax} transactions; symbolic account counter; initial mempool 0..2 own'
+                      bounds=f'every history of exactly {steps} steps over the 10-step alphabet; groups of 1..{nmax} transactions; symbolic account counter; initial mempool 0..2 own'
                              + (' + 0..1 foreign operations' if foreign else ' operations')))
     return obs
